@@ -641,6 +641,30 @@ func ResolveRenames(p *Prog, path string) {
 	sameRecvIgnoringPtr := func(a, b string) bool {
 		return strings.TrimPrefix(a, "*") == strings.TrimPrefix(b, "*")
 	}
+	// callees that are themselves gone from / new in the tree say nothing about identity: when a
+	// function and one of its callees are renamed together, the callee's old and new name would
+	// otherwise count as a difference between the two fingerprints
+	unstable := map[string]bool{}
+	for _, mf := range missingFuncs {
+		unstable[mf.Name] = true
+	}
+	for k := range curFuncs {
+		if !snapFuncKeys[k] {
+			unstable[k.name] = true
+		}
+	}
+	stableFP := func(fp []string) []string {
+		var out []string
+		for _, e := range fp {
+			if strings.HasPrefix(e, "c:") {
+				if i := strings.LastIndex(e, "."); i >= 0 && unstable[e[i+1:]] {
+					continue
+				}
+			}
+			out = append(out, e)
+		}
+		return out
+	}
 	for _, mf := range missingFuncs {
 		wantSig := translate(mf.Sig, oldToNewType)
 		var pick *declFunc
@@ -688,7 +712,7 @@ func ResolveRenames(p *Prog, path string) {
 					continue
 				}
 				nCand++
-				sc := jaccard(mf.FP, cf.FP)
+				sc := jaccard(stableFP(mf.FP), stableFP(cf.FP))
 				if sc > best {
 					second = best
 					best, bestF = sc, cf
